@@ -245,7 +245,25 @@ pub fn varnat(mut n: u64) -> Vec<u8> { let mut o = vec![(n & 0x7f) as u8]; n >>=
 fn thex(s: &str) -> String { hex_or_dash(s.as_bytes()) }
 
 /// malformed variants of a text (hex / bech32 / base58 / JSON agnostic)
+pub const NON_ASCII: [&str; 9] = ["\u{80}", "\u{a0}", "\u{e9}", "\u{7ff}", "\u{20ac}", "\u{fffd}", "\u{1F600}", "\u{10FFFF}", "\u{ff11}"];
+/// non-ASCII text for a decoder of ASCII alphabets (hex, bech32, base58, numbers): a valid text with one character replaced /
+/// appended / prepended by multi-byte UTF-8 (2, 3 and 4 bytes, NBSP, full-width digit), random unicode strings, leading '1's
+/// followed by non-ASCII
+pub fn mutate_nonascii(s: &str, rng: &mut Rng, full: bool, out: &mut Vec<(String, String)>) {
+    let cs: Vec<char> = s.chars().collect(); let n = cs.len();
+    let mut all: Vec<(String, String)> = Vec::new();
+    for ch in NON_ASCII.iter() {
+        all.push(("u-append".into(), format!("{}{}", s, ch))); all.push(("u-prepend".into(), format!("{}{}", ch, s)));
+        all.push(("u-alone".into(), ch.to_string())); all.push(("u-ones".into(), format!("{}{}", "1".repeat(1 + rng.below(3) as usize), ch)));
+        if n > 0 { for k in [0usize, n / 2, n - 1, rng.below(n as u64) as usize] { let mut t: Vec<char> = cs.clone(); t[k] = ch.chars().next().unwrap(); all.push(("u-replace".into(), t.iter().collect())); } }
+    }
+    for _ in 0..4 { let len = 1 + rng.below(20) as usize; let t: String = (0..len).map(|_| { loop { let c = rng.below(0x11_0000) as u32; if let Some(ch) = char::from_u32(c) { if c >= 0x80 || rng.chance(1, 4) { return ch; } } } }).collect(); all.push(("u-random".into(), t)); }
+    // every variant for the directed streams, a seeded fifth of them elsewhere (the sweep has every character alone)
+    for x in all { if full || rng.chance(1, 5) { out.push(x); } }
+}
+
 pub fn mutate_text(s: &str, rng: &mut Rng, out: &mut Vec<(String, String)>) {
+    mutate_nonascii(s, rng, false, out);
     let cs: Vec<char> = s.chars().collect(); let n = cs.len();
     let sub = |a: usize, b: usize| -> String { cs[a..b].iter().collect() };
     out.push(("t-empty".into(), String::new()));
@@ -485,6 +503,10 @@ fn targeted(rng: &mut Rng, cases: &mut Vec<String>) {
             if k < 20 { let mut o = vec![0x82u8]; o.extend(bstr(&v)); o.push(0x01); push(format!("dec TransactionOutput {} emb-{}", hex_or_dash(&o), l)); }
         }
     }
+    // base58 text: a valid address with characters replaced / inserted / appended (ASCII outside the alphabet, non-ASCII)
+    for _ in 0..3 { let v = byron_valid(rng); let t = base58_encode(&v); let mut tm = Vec::new(); mutate_nonascii(&t, rng, true, &mut tm); mutate_text(&t, rng, &mut tm);
+        push(format!("fn b58 {} {} b58-valid", thex(&t), hex_or_dash(&v)));
+        for (l, m) in tm { push(format!("fn b58 {} {}", thex(&m), l)); } }
     // Byron attributes: contents of the protocol-magic / derivation-path byte strings (crc-valid envelope)
     for x in [&[][..], &[0x00], &[0x1a, 0x2d, 0x96, 0x4a, 0x09], &[0x1b, 0, 0, 0, 1, 0, 0, 0, 0], &[0x1b, 0xff, 0xff, 0xff, 0xff, 0xff, 0xff, 0xff, 0xff], &[0x3a, 0, 0, 0, 1], &[0x20], &[0x40], &[0x60], &[0x80], &[0xa0],
               &[0xf6], &[0xff], &[0x1a, 0xff], &[0x18], &[0x1c], &[0x1f], &[0xc2, 0x41, 0x01], &[0x00, 0x00], &[0xfb, 0, 0, 0, 0, 0, 0, 0, 0]] {
@@ -500,6 +522,25 @@ fn targeted(rng: &mut Rng, cases: &mut Vec<String>) {
         let mut inner2 = vec![0x83u8]; inner2.extend(bstr(&rng.bytes(28))); inner2.extend([0xbb, 0xff, 0xff, 0xff, 0xff, 0xff, 0xff, 0xff, 0xff, 0x02]); inner2.extend(bstr(x)); inner2.push(0x00);
         let v2 = byron_envelope(&inner2); push(format!("dec ByronAddress {} byron-attr-count", hex_or_dash(&v2)));
     }
+    // present-but-empty collection for every key of the transaction body and of the witness set (the writers skip an empty
+    // collection: the map length must skip it too), alone and in pairs, through every entry point that shares the readers
+    let min_body: Vec<u8> = vec![0xa3, 0x00, 0xd9, 0x01, 0x02, 0x80, 0x01, 0x80, 0x02, 0x00];
+    let empties: [&[u8]; 6] = [&[0x80], &[0xd9, 0x01, 0x02, 0x80], &[0xa0], &[0x9f, 0xff], &[0xd9, 0x01, 0x02, 0x9f, 0xff], &[0xbf, 0xff]];
+    let tx_of = |body: &[u8], wits: &[u8]| { let mut t = vec![0x84u8]; t.extend_from_slice(body); t.extend_from_slice(wits); t.extend([0xf5, 0xf6]); t };
+    for k in 3..=25u8 { for e in empties.iter() {
+        let mut b = vec![0xa4u8]; b.extend_from_slice(&min_body[1..]); b.extend(enc_min(0, k as u64)); b.extend_from_slice(e);
+        for ty in ["TransactionBody", "FixedTransactionBody", "FixedTransaction.new_from_body_bytes", "FixedTransaction.new"] { push(format!("dec {} {} body-empty-field", ty, hex_or_dash(&b))); }
+        let t = tx_of(&b, &[0xa0]); for ty in ["Transaction", "FixedTransaction"] { push(format!("dec {} {} body-empty-field", ty, hex_or_dash(&t))); }
+        let mut bs = vec![0x81u8]; bs.extend_from_slice(&b); push(format!("dec TransactionBodies {} body-empty-field", hex_or_dash(&bs)));
+    } }
+    for k in 0..=8u8 { for e in empties.iter() {
+        let mut w = vec![0xa1u8, k]; w.extend_from_slice(e);
+        for ty in ["TransactionWitnessSet", "FixedTxWitnessesSet", "FixedTransaction.new.wits"] { push(format!("dec {} {} wits-empty-field", ty, hex_or_dash(&w))); }
+        let t = tx_of(&min_body, &w); for ty in ["Transaction", "FixedTransaction"] { push(format!("dec {} {} wits-empty-field", ty, hex_or_dash(&t))); }
+        for k2 in (k + 1)..=7u8 { let e2 = empties[rng.below(3) as usize]; let mut w2 = vec![0xa2u8, k]; w2.extend_from_slice(e); w2.push(k2); w2.extend_from_slice(e2);
+            for ty in ["TransactionWitnessSet", "FixedTxWitnessesSet"] { push(format!("dec {} {} wits-empty-pair", ty, hex_or_dash(&w2))); }
+            let t2 = tx_of(&min_body, &w2); push(format!("dec FixedTransaction {} wits-empty-pair", hex_or_dash(&t2))); }
+    } }
     // legacy output, third element: every kind of item / truncation after [address, amount]
     let addr = { let mut v = vec![0x61u8]; v.extend(rng.bytes(28)); bstr(&v) };
     for n_items in [0x82u8, 0x83, 0x84, 0x9f] { for third in [&[][..], &[0x58, 0x20], &[0x58], &[0x59, 0x00], &[0x5f], &[0x5f, 0x41], &[0x5f, 0x41, 0x00], &[0x5f, 0x41, 0x00, 0xff], &[0x40], &[0x41], &[0x41, 0x00], &[0x5b, 0xff, 0xff, 0xff, 0xff, 0xff, 0xff, 0xff, 0xff],
@@ -663,6 +704,11 @@ pub fn build_sweep(rng: &mut Rng, thorough: bool, sweep: &mut Vec<String>) {
         for a in &ascii { sweep.push(format!("{} {} {:02x}", kind, ty, a)); }
         for a in &ascii { for b in &second_t { sweep.push(format!("{} {} {:02x}{:02x}", kind, ty, a, b)); } }
     } }
+    let uni: Vec<String> = NON_ASCII.iter().flat_map(|c| vec![c.to_string(), format!("1{}", c), format!("{}1", c), format!("{}{}", c, c)]).collect();
+    for (kind, names) in [("hex", all_hex_names()), ("json", all_json_names()), ("b32", all_b32_names())] { for ty in names { for u in &uni {
+        sweep.push(format!("{} {} {}", kind, ty, hex_or_dash(u.as_bytes())));
+        if kind == "json" { sweep.push(format!("{} {} {}", kind, ty, hex_or_dash(format!("\"{}\"", u).as_bytes()))); } } } }
+    for f in ["b58", "bignum_str", "bigint_str", "int_str"] { for u in &uni { sweep.push(format!("fn {} {}", f, hex_or_dash(u.as_bytes()))); } }
     for f in ["b58", "bignum_str", "bigint_str", "int_str"] { sweep.push(format!("fn {} -", f)); for a in &ascii { sweep.push(format!("fn {} {:02x}", f, a)); for b in &second_t { sweep.push(format!("fn {} {:02x}{:02x}", f, a, b)); } } }
     for f in ["md_from_json", "pd_from_json"] { for k in ["0", "1"] { for a in &ascii { sweep.push(format!("fn {} {} {:02x}", f, k, a)); for b in &second_t { sweep.push(format!("fn {} {} {:02x}{:02x}", f, k, a, b)); } } } }
 }
